@@ -230,7 +230,7 @@ def extra_runs(ctx, lib):
     cached = getattr(ctx, "_flatpass_extra", None)
     if cached is not None:
         return cached
-    n = ctx.pick(16, 200)
+    n = ctx.pick(12, 200)
     texts = list(FIXED)
     n += len(texts)
     while len(texts) < n:
@@ -298,8 +298,8 @@ def report_mismatches(ctx, lib, PASS, mism, model, theorem, where):
     """mism: cases (dicts with run, b, a, res) whose Polar output differs from the model.
     Looks for a semantic failing input among them (reference semantics on Polar's two
     snapshots, at most 8 searches, programs of the extra stream first because they are
-    small); reports the first failing input found, and up to two of the remaining mismatches
-    as broken correspondence."""
+    small); reports the first failing input found; if there is none, up to two of the
+    mismatches as broken correspondence (no-failing-input-found)."""
     import json
     order = sorted(mism, key=lambda c: (not c["run"].get("extra"), len(c["b"]["body"])))
     found = None
@@ -318,8 +318,7 @@ def report_mismatches(ctx, lib, PASS, mism, model, theorem, where):
                        "after_pass_program": [ga_text(x) for x in a["init"]] + ["while true:"] + [ga_text(x) for x in a["body"]]},
                       f"after {PASS} (options {run['opts']}) E({sem[1]}) after {sem[0]} iterations is {sem[3]}, but {sem[2]} before the "
                       f"pass (reference semantics on Polar's two snapshots)\n{run['text']}")
-    rest = [c for c in mism if not found or c is not found[0]]
-    for c in rest[:2]:
+    for c in ([] if found else mism[:2]):
         run, b, a = c["run"], c["b"], c["a"]
         eq, _, d = c["res"]
         allp = where(a)
